@@ -89,6 +89,7 @@ type Exec struct {
 
 	callOrd map[string]int
 	curHeap *Heap
+	undefLocals map[string]Term
 }
 
 func (vc *VC) newExec(fn *ssa.Function, pfx string, depth int) *Exec {
@@ -852,7 +853,7 @@ func (e *Exec) instr(b *ssa.BasicBlock, ins ssa.Instruction, reach string, h *He
 	switch x := ins.(type) {
 	case *ssa.DebugRef:
 		if id, ok := x.Expr.(*ast.Ident); ok {
-			if _, isVar := x.Object().(*types.Var); isVar {
+			if v, isVar := x.Object().(*types.Var); isVar && !(v.Pkg() != nil && v.Parent() == v.Pkg().Scope()) && !v.IsField() {
 				e.names[id.Name] = append(e.names[id.Name], nameRef{val: x.X, isAddr: x.IsAddr, blk: b})
 			}
 		}
